@@ -56,40 +56,77 @@ Qed.
 
 (** ** re-running the same command completes the migration
 
-    Setting: one directory [dir] (files strictly sorted by version, no checkpoint
-    file, no txmode directive, no failing statement: [clean]); [hash_eqb] decides
-    equality of hashes. [plan all] = the statements of all files in order.
-    [Bd c k] ("file boundary"): the journal of [c] holds exactly the statements of
-    the first [k] files and the revision table their complete revisions -- the
-    empty database is [Bd _ 0] ([Bd_empty]); the theorems show that every
-    crashed state and every state after the re-run is again such a state (file,
-    all) resp. a resume state [DInv] (none), so they apply to any number of
-    crashes and re-runs, and to any count argument [n] of the crashed command. *)
+    Setting: the migration directory is [dskip ++ dir], its files strictly sorted
+    by version; checkpoint files are allowed: [dir] is the directory from its last
+    checkpoint file on ([all_from_checkpoint]), the files of [dskip] are never
+    run. No file has a failing statement ([clean]: crash only). Files may carry
+    txmode directives; the command's global mode [g] must accept them ([valid]);
+    every file runs in its effective mode [mode_for g tf]. [hash_eqb] decides
+    equality of hashes. [plan all] = the statements of [dir] in order.
+
+    [St c D k a has e] (CrashProofs.v): [c] is a resume state -- its table holds
+    complete revisions of the first [k] files (+ a revision claiming [a]
+    statements of file [k] if [has]), its journal is the plan up to position
+    [pos k a + e] with repeats, repeats + [e] <= [D]. [Bd c k] = [St c 0 k 0
+    false false]: a file boundary (the empty database is [Bd _ 0]: [Bd_empty]).
+    [completed c D]: journal = the whole plan in order with statement i repeated
+    reps[i] times, sum reps <= D; every revision Applied = Total = count.
+    The theorems show each crashed state and each state after a re-run is again
+    such a state, so they apply to any number of crashes and re-runs and to any
+    count argument [n] of the crashed command. *)
 Section Rerun.
 Hypothesis hash_eqb_spec : forall a b, hash_eqb a b = true <-> a = b.
-Variable dir : list tfile.
+Variable dskip dir : list tfile.
 Let all := map tf_file dir.
-Hypothesis all_sorted : sorted_files all.
-Hypothesis all_no_checkpoint : forall f, In f all -> f_ckpt f = false.
-Hypothesis no_directives : no_directive dir.
+Hypothesis full_sorted : sorted_files (map tf_file dskip ++ all).
+Hypothesis all_from_checkpoint : from_last_ckpt (map tf_file dskip ++ all) = all.
 Hypothesis no_failing_statement : clean dir.
 
-(** file: wherever the process dies, the database holds whole files only, and
-    running `migrate apply` again ends with every statement's effect present
-    exactly once and every revision complete. *)
+(** The general statement, any global mode, any valid directives, from any
+    resume state: the crashed state is a resume state with at most one more
+    repeat; where the crash can be seen ([crash_class]: between files / inside a
+    transactional file the state the command started from or a state after whole
+    further files -- only inside a file that runs WITHOUT transaction a file is
+    half applied); the re-run succeeds and completes. *)
+Theorem C10_rerun_completes :
+  forall g (c0 : db hash) D k0 a0 has0 e0 n o c1 tr pt i d,
+  valid g dir -> St hash HS dir c0 D k0 a0 has0 e0 -> normal all k0 a0 has0 ->
+  apply_run hash hash_eqb HS g n (dskip ++ dir) c0 = (o, c1, tr) ->
+  crash_state hash tr pt i = Some d ->
+  DInv hash HS dir d (D + 1) /\
+  match g with
+  | TxAll => d = c0 \/ (pt = AfterCommit /\ d = c1 /\ o = ADone)
+  | _ => crash_class hash HS dir g D k0 a0 has0 d
+  end /\
+  exists o2 c2 tr2,
+    apply_run hash hash_eqb HS g 0 (dskip ++ dir) d = (o2, c2, tr2) /\
+    (o2 = ADone \/ o2 = APend PNoPending) /\
+    completed hash dir c2 (D + 1) /\ DInv hash HS dir c2 (D + 1) /\
+    (g = TxAll \/ (exists k a has e, St hash HS dir d D k a has e) -> completed hash dir c2 D).
+Proof.
+  intros g c0 D k0 a0 has0 e0 n o c1 tr pt i d Hv.
+  exact (crash_rerun hash hash_eqb HS hash_eqb_spec dskip dir full_sorted all_from_checkpoint
+           g c0 D k0 a0 has0 e0 n o c1 tr pt i d no_failing_statement Hv).
+Qed.
+
+(** file: every file effectively in file mode (no directive, or "file"):
+    wherever the process dies the database holds whole files only, and running
+    `migrate apply` again ends with every statement's effect present exactly once
+    and every revision complete. *)
 Theorem C10_file_rerun_completes :
   forall (c0 : db hash) k0 n o c1 tr pt i d,
+  (forall tf, In tf dir -> mode_for TxFile tf = Some TxFile) ->
   Bd hash HS dir c0 k0 ->
-  apply_run hash hash_eqb HS TxFile n dir c0 = (o, c1, tr) ->
+  apply_run hash hash_eqb HS TxFile n (dskip ++ dir) c0 = (o, c1, tr) ->
   crash_state hash tr pt i = Some d ->
-  (exists j, Bd hash HS dir d j /\ d_journal d = map snd (plan (firstn j all))) /\
+  whole_files hash HS dir d /\
   exists o2 c2 tr2,
-    apply_run hash hash_eqb HS TxFile 0 dir d = (o2, c2, tr2) /\
+    apply_run hash hash_eqb HS TxFile 0 (dskip ++ dir) d = (o2, c2, tr2) /\
     (o2 = ADone \/ o2 = APend PNoPending) /\
-    completed hash dir c2 /\ Bd hash HS dir c2 (length all).
+    completed hash dir c2 0 /\ d_journal c2 = map snd (plan all).
 Proof.
   intros c0 k0 n o c1 tr pt i d.
-  exact (file_crash_rerun hash hash_eqb HS hash_eqb_spec dir all_sorted all_no_checkpoint no_directives
+  exact (file_crash_rerun hash hash_eqb HS hash_eqb_spec dskip dir full_sorted all_from_checkpoint
            c0 k0 n o c1 tr pt i d no_failing_statement).
 Qed.
 
@@ -97,63 +134,61 @@ Qed.
     its final state; the re-run completes exactly once. *)
 Theorem C10_all_rerun_completes :
   forall (c0 : db hash) k0 n o c1 tr pt i d,
-  Bd hash HS dir c0 k0 ->
-  apply_run hash hash_eqb HS TxAll n dir c0 = (o, c1, tr) ->
+  valid TxAll dir -> Bd hash HS dir c0 k0 ->
+  apply_run hash hash_eqb HS TxAll n (dskip ++ dir) c0 = (o, c1, tr) ->
   crash_state hash tr pt i = Some d ->
   (d = c0 \/ (pt = AfterCommit /\ d = c1 /\ o = ADone)) /\
-  (exists j, Bd hash HS dir d j /\ d_journal d = map snd (plan (firstn j all))) /\
   exists o2 c2 tr2,
-    apply_run hash hash_eqb HS TxAll 0 dir d = (o2, c2, tr2) /\
+    apply_run hash hash_eqb HS TxAll 0 (dskip ++ dir) d = (o2, c2, tr2) /\
     (o2 = ADone \/ o2 = APend PNoPending) /\
-    completed hash dir c2 /\ Bd hash HS dir c2 (length all).
+    completed hash dir c2 0 /\ d_journal c2 = map snd (plan all).
 Proof.
   intros c0 k0 n o c1 tr pt i d.
-  exact (all_crash_rerun hash hash_eqb HS hash_eqb_spec dir all_sorted all_no_checkpoint no_directives
+  exact (all_crash_rerun hash hash_eqb HS hash_eqb_spec dskip dir full_sorted all_from_checkpoint
            c0 k0 n o c1 tr pt i d no_failing_statement).
 Qed.
 
-(** none: the re-run completes; no statement is lost, the final journal is the
-    plan in order where statement i occurs 1 + reps[i] times and the repeats sum
-    to at most one per crash ([D] = repeats inherited from earlier crashes;
-    [D = 0] from a file boundary, e.g. the empty database): at most the one
-    statement in flight at the crash is executed twice. *)
+(** none or file with per-file directives (each file in its effective mode):
+    the crashed state holds whole files only, or the crash happened inside file
+    [j] whose effective mode is none (only such a file can be half applied); the
+    re-run completes with at most the one statement in flight executed twice, and
+    exactly once if the crashed state holds whole files. In particular for
+    --tx-mode none without directives: no statement lost, at most one repeated. *)
 Theorem C10_none_rerun_completes :
-  forall (c0 : db hash) D n o c1 tr pt i d,
-  DInv hash HS dir c0 D ->
-  apply_run hash hash_eqb HS TxNone n dir c0 = (o, c1, tr) ->
+  forall g (c0 : db hash) k0 n o c1 tr pt i d,
+  g <> TxAll -> valid g dir -> Bd hash HS dir c0 k0 ->
+  apply_run hash hash_eqb HS g n (dskip ++ dir) c0 = (o, c1, tr) ->
   crash_state hash tr pt i = Some d ->
-  DInv hash HS dir d (D + 1) /\
+  (whole_files hash HS dir d \/
+   (exists j tf a has e, nth_error dir j = Some tf /\ mode_for g tf = Some TxNone /\
+                         St hash HS dir d 1 j a has e)) /\
   exists o2 c2 tr2,
-    apply_run hash hash_eqb HS TxNone 0 dir d = (o2, c2, tr2) /\
-    (o2 = ADone \/ o2 = APend PNoPending) /\
-    (exists reps, length reps = length (plan all) /\ list_sum reps <= D + 1 /\
-                  d_journal c2 = map snd (expand (plan all) reps)) /\
-    (forall f, In f all -> exists r, tbl_get (d_tbl c2) (f_version f) = Some r /\
-                                     r_applied r = length (f_stmts f) /\ r_total r = length (f_stmts f)) /\
-    DInv hash HS dir c2 (D + 1).
+    apply_run hash hash_eqb HS g 0 (dskip ++ dir) d = (o2, c2, tr2) /\
+    (o2 = ADone \/ o2 = APend PNoPending) /\ completed hash dir c2 1 /\
+    (whole_files hash HS dir d -> completed hash dir c2 0 /\ d_journal c2 = map snd (plan all)).
 Proof.
-  intros c0 D n o c1 tr pt i d.
-  exact (none_crash_rerun hash hash_eqb HS hash_eqb_spec dir all_sorted all_no_checkpoint no_directives
-           c0 D n o c1 tr pt i d no_failing_statement).
+  intros g c0 k0 n o c1 tr pt i d Hg.
+  exact (mixed_crash_rerun hash hash_eqb HS hash_eqb_spec dskip dir full_sorted all_from_checkpoint
+           g c0 k0 n o c1 tr pt i d Hg no_failing_statement).
 Qed.
 
 (** The revision table never records a statement whose effect is not in the
-    database: in every crashed state, in every mode, the table claims exactly the
-    plan up to a position [P], the journal holds the plan up to [E] (with at most
-    one repeat) and [P <= E <= P + 1]. *)
+    database: in every crashed state, in every mode, with any valid directives,
+    the table claims exactly the plan up to a position [P], the journal holds the
+    plan up to [E] (with at most one repeat) and [P <= E <= P + 1]. *)
 Theorem C10_rev_sound :
-  forall global (c0 : db hash) k0 n o c1 tr pt i d,
-  Bd hash HS dir c0 k0 ->
-  apply_run hash hash_eqb HS global n dir c0 = (o, c1, tr) ->
+  forall g (c0 : db hash) k0 n o c1 tr pt i d,
+  valid g dir -> Bd hash HS dir c0 k0 ->
+  apply_run hash hash_eqb HS g n (dskip ++ dir) c0 = (o, c1, tr) ->
   crash_state hash tr pt i = Some d ->
   exists P E reps,
     P <= E /\ E <= P + 1 /\ E <= length (plan all) /\ length reps = E /\ list_sum reps <= 1 /\
     d_journal d = map snd (expand (firstn E (plan all)) reps) /\
     claimed_plan hash all (d_tbl d) = firstn P (plan all).
 Proof.
-  intros global c0 k0 n o c1 tr pt i d.
-  exact (rev_sound_lemma hash hash_eqb HS hash_eqb_spec dir all_sorted all_no_checkpoint no_directives
-           global c0 k0 n o c1 tr pt i d no_failing_statement).
+  intros g c0 k0 n o c1 tr pt i d.
+  exact (rev_sound_lemma hash hash_eqb HS hash_eqb_spec dskip dir full_sorted all_from_checkpoint
+           g c0 k0 n o c1 tr pt i d no_failing_statement).
 Qed.
 
 End Rerun.
@@ -163,6 +198,7 @@ End C10.
 Print Assumptions C10_all_atomic.
 Print Assumptions C10_file_never_half_applied.
 Print Assumptions C10_none_prefix.
+Print Assumptions C10_rerun_completes.
 Print Assumptions C10_file_rerun_completes.
 Print Assumptions C10_all_rerun_completes.
 Print Assumptions C10_none_rerun_completes.
@@ -192,12 +228,14 @@ Proof. vm_compute. repeat split; reflexivity. Qed.
     hypotheses, the empty database is a file boundary, and a crash after the
     third statement in none mode followed by the re-run executes it twice. *)
 Example C10_rerun_hyps_nonvacuous :
-  sorted_files (map tf_file ex_dir) /\ (forall f, In f (map tf_file ex_dir) -> f_ckpt f = false) /\
-  no_directive ex_dir /\ clean ex_dir /\ Bd bytes (fun b => b) ex_dir ex_db0 0.
+  sorted_files (map tf_file [] ++ map tf_file ex_dir) /\
+  from_last_ckpt (map tf_file [] ++ map tf_file ex_dir) = map tf_file ex_dir /\
+  valid TxNone ex_dir /\ valid TxFile ex_dir /\ valid TxAll ex_dir /\ clean ex_dir /\
+  Bd bytes (fun b => b) ex_dir ex_db0 0.
 Proof.
-  split; [unfold sorted_files, fver_lt; repeat constructor|].
-  split; [intros f [<-|[<-|[]]]; reflexivity|].
-  split; [intros f [<-|[<-|[]]]; reflexivity|].
+  split; [unfold sorted_files, fver_lt; repeat constructor|]. split; [reflexivity|].
+  split; [intros f [<-|[<-|[]]]; discriminate|]. split; [intros f [<-|[<-|[]]]; discriminate|].
+  split; [intros f [<-|[<-|[]]]; discriminate|].
   split; [intros f [<-|[<-|[]]]; reflexivity|].
   apply Bd_empty.
 Qed.
@@ -224,3 +262,29 @@ Example C10_file_rerun_nonvacuous :
   | None => False
   end.
 Proof. vm_compute. repeat split; reflexivity. Qed.
+
+(** a directory with two checkpoint files and a `txmode none` directive on the
+    last checkpoint under --tx-mode file: a fresh database starts at file 3; a
+    crash after its first statement leaves that file (the one without
+    transaction) half applied; the re-run repeats nothing and goes on with file 4. *)
+Definition ck_skip : list tfile :=
+  [ mkTfile (mkFile [49%N] [s 1] true) None None; mkTfile (mkFile [50%N] [s 2] false) None None ].
+Definition ck_dir : list tfile :=
+  [ mkTfile (mkFile [51%N] [s 3; s 4] true) (Some (Some TxNone)) None; mkTfile (mkFile [52%N] [s 5] false) None None ].
+Example C10_checkpoint_directive_nonvacuous :
+  sorted_files (map tf_file ck_skip ++ map tf_file ck_dir) /\
+  from_last_ckpt (map tf_file ck_skip ++ map tf_file ck_dir) = map tf_file ck_dir /\
+  valid TxFile ck_dir /\ clean ck_dir /\
+  let '(_, _, tr) := apply_run bytes bytes_eqb (fun b => b) TxFile 0 (ck_skip ++ ck_dir) ex_db0 in
+  match crash_state bytes tr AfterWrite 2 with
+  | Some d =>
+      d_journal d = [s 3] /\
+      let '(o2, c2, _) := apply_run bytes bytes_eqb (fun b => b) TxFile 0 (ck_skip ++ ck_dir) d in
+      o2 = ADone /\ d_journal c2 = [s 3; s 4; s 5]
+  | None => False
+  end.
+Proof.
+  split; [unfold sorted_files, fver_lt; repeat constructor|]. split; [reflexivity|].
+  split; [intros f [<-|[<-|[]]]; discriminate|]. split; [intros f [<-|[<-|[]]]; reflexivity|].
+  vm_compute. repeat split; reflexivity.
+Qed.
